@@ -233,7 +233,7 @@ def run_proc_case(spec):
     from vf.realproc import reap_children, run_with_watchdog
 
     try:
-        res = run_with_watchdog(lambda: targets.process_case(spec), budget_s=30, what=f"Process {spec['ending']}/{spec['kill']}/{spec['phase']}", signature=['hang', spec['ending'], spec['kill'], spec['phase']])
+        res = run_with_watchdog(lambda: targets.process_case(spec), budget_s=25, what=f"Process {spec['ending']}/{spec['kill']}/{spec['phase']}", signature=['hang', spec['ending'], spec['kill'], spec['phase']])
     finally:
         reap_children()
     if res.get('skipped'):
